@@ -38,16 +38,16 @@ Definition arith_op (op : arith) (t : ty) : option instr :=
   match t with
   | TF f =>
       match op with
-      | Add => Some (FBin f FAdd) | Sub => Some (FBin f FSub)
-      | Mul => Some (FBin f FMul) | Div => Some (FBin f FDiv)
-      | Mod => None                      (* "float modulo not yet implemented" *)
+      | AAdd => Some (FBin f FAdd) | ASub => Some (FBin f FSub)
+      | AMul => Some (FBin f FMul) | ADiv => Some (FBin f FDiv)
+      | AMod => None                      (* "float modulo not yet implemented" *)
       end
   | TI it =>
       let w := regw it in
       Some (IBin w match op with
-                   | Add => IAdd | Sub => ISub | Mul => IMul
-                   | Div => if signed it then IDivS else IDivU
-                   | Mod => if signed it then IRemS else IRemU
+                   | AAdd => IAdd | ASub => ISub | AMul => IMul
+                   | ADiv => if signed it then IDivS else IDivU
+                   | AMod => if signed it then IRemS else IRemU
                    end)
   end.
 
@@ -57,11 +57,11 @@ Definition cmp_op (op : cmp) (t : ty) : instr :=
   | TI it =>
       let s := signed it in
       IRel (regw it) match op with
-                     | Eq => IEq | Ne => INe
-                     | Lt => if s then ILtS else ILtU
-                     | Gt => if s then IGtS else IGtU
-                     | Le => if s then ILeS else ILeU
-                     | Ge => if s then IGeS else IGeU
+                     | CEq => IEq | CNe => INe
+                     | CLt => if s then ILtS else ILtU
+                     | CGt => if s then IGtS else IGtU
+                     | CLe => if s then ILeS else ILeU
+                     | CGe => if s then IGeS else IGeU
                      end
   end.
 
